@@ -125,6 +125,26 @@ def run(spec, ctx):
             "env": (lambda d: env2.findall(text, d, **kw), lambda d: env2.finditer(text, d, **kw), lambda d: env2.match(text, d, **kw), lambda d: env2.query(text, d, **kw)),
             "compiled": (lambda d: p.findall(d, **kw), lambda d: p.finditer(d, **kw), lambda d: p.match(d, **kw), lambda d: p.query(d, **kw)),
         }
+        # the same compound query assembled from its compiled operands: with the union()/intersection() methods, and
+        # with the constructor given a compound left-hand side (split after every operator)
+        cps = [jsonpath.compile(Renderer(r, plain=True).top(q)) for q in asts]
+        if ops:
+            def by_methods():
+                q_ = cps[0]
+                for op_, c_ in zip(ops, cps[1:]):
+                    q_ = q_.union(c_) if op_ == "|" else q_.intersection(c_)
+                return q_
+            bm = impl.call(by_methods)
+            if bm.ok:
+                layers["assembled-by-methods"] = (lambda d, q_=bm.value: q_.findall(d, **kw), lambda d, q_=bm.value: q_.finditer(d, **kw), lambda d, q_=bm.value: q_.match(d, **kw), lambda d, q_=bm.value: q_.query(d, **kw))
+            from jsonpath.path import CompoundJSONPath
+
+            E = jsonpath.DEFAULT_ENV
+            tok = {"|": E.union_token, "&": E.intersection_token}
+            for k_ in range(1, len(ops)):
+                left = CompoundJSONPath(env=E, path=cps[0], paths=[(tok[o_], c_) for o_, c_ in zip(ops[:k_], cps[1:k_ + 1])])
+                whole = CompoundJSONPath(env=E, path=left, paths=[(tok[o_], c_) for o_, c_ in zip(ops[k_:], cps[k_ + 1:])])
+                layers["constructor-with-compound-left-%d" % k_] = (lambda d, q_=whole: q_.findall(d, **kw), lambda d, q_=whole: q_.finditer(d, **kw), lambda d, q_=whole: q_.match(d, **kw), lambda d, q_=whole: q_.query(d, **kw))
         jtext = json.dumps(doc)
 
         def forms():
